@@ -446,8 +446,12 @@ def cond_slices(b, sb, depth=2):
         for d in b.defs().get(x_, ()):
             if d["kind"] == "assign" and not d["lhs"]["p"] and d["rv"]["k"] == "use" and d["rv"]["op"].get("k") in ("copy", "move") and not d["rv"]["op"]["place"]["p"]:
                 work.append(d["rv"]["op"]["place"]["l"])
+            elif d["kind"] == "assign" and not d["lhs"]["p"] and d["rv"]["k"] == "discr" and not d["rv"]["place"]["p"]:
+                work.append(d["rv"]["place"]["l"])       # `match verdict { A => .., B => .. }` on a locally built verdict
     for d in [d_ for x_ in sorted(locs) for d_ in b.defs().get(x_, ())]:
-        if d["kind"] == "assign" and not d["lhs"]["p"] and d["rv"]["k"] == "use" and d["rv"]["op"].get("k") == "const" and isinstance(d["rv"]["op"].get("v"), bool):
+        if d["kind"] == "assign" and not d["lhs"]["p"] and (
+                (d["rv"]["k"] == "use" and d["rv"]["op"].get("k") == "const" and isinstance(d["rv"]["op"].get("v"), bool)) or
+                (d["rv"]["k"] == "agg" and d["rv"].get("ak") == "adt" and not d["rv"].get("ops"))):
             for sb2, t2 in b.switches():
                 if sb2 != sb and sb2 not in seen and any(b.edge_dominates((sb2, x), d["bb"]) for x in b.succ(sb2)):
                     seen.add(sb2)
@@ -658,6 +662,27 @@ def specialise(body, avoid, crate=None):
             break
         R = body.reach([0], avoid_edges=avoid)
     return R, avoid
+
+
+def reach_through_edge(body, edge, crate=None):
+    """Blocks on the paths entry -> .. -> edge -> .., with the flags and locally built verdicts (`let st = if c { A } else { B }; ..
+    match st {..}`) folded to what they are on those paths: every edge that leaves the set of blocks from which the edge's
+    source is still reachable (other than the edge itself) is excluded, then `specialise` folds what the remaining definitions decide."""
+    src, tgt = edge
+    pre = {src}
+    work = [src]
+    while work:
+        x = work.pop()
+        for p_ in body.pred(x):
+            if p_ not in pre:
+                pre.add(p_)
+                work.append(p_)
+    avoid = set()
+    for u in pre:
+        for v in body.succ(u):
+            if (u, v) != (src, tgt) and (v not in pre or u == src):
+                avoid.add((u, v))
+    return specialise(body, avoid, crate)[0]
 
 
 _INT_CMP = {"Eq": lambda a, b: a == b, "Ne": lambda a, b: a != b, "Lt": lambda a, b: a < b, "Le": lambda a, b: a <= b,
